@@ -771,7 +771,7 @@ func genWdCase(t *rapid.T) WdCase {
 
 func TestC05_Withdrawals(t *testing.T) {
 	RunProp(t, Prop[WdCase]{
-		ID: "C05", Name: "lifecycle", Quick: 320, Thor: 10_000,
+		ID: "C05", Name: "lifecycle", Quick: 640, Thor: 10_000,
 		Gen: genWdCase, Run: runWdCase,
 		Rule: "histories of 5-40 blocks: execution-layer requests Withdraw (fresh id; P2WPKH/P2WSH/P2TR/P2PKH/P2SH of the configured network, garbage, pay-to-pubkey hex, other-network address; amount; maximum fee rate), fee updates and cancellations over earlier ids, and relayer messages Process (1-5 ids of any status with duplicates; per output right/wrong script, value below/equal/above the request; 0/1/2 extra outputs paying the current key, an old key or a stranger; fee giving a rate below/at/above the tightest maximum), Replace (fee lower/equal/higher, identical transaction), Finalize (original / fee-bumped / foreign txid; block voted / not voted / wrong header; position true / 0 / alias / neighbour / mined as first transaction; proof genuine / flipped / empty) and ApproveCancellation, all with honest votes; reference state machine decides every transaction and every Query/Withdrawal record; per id the paid/refund notices received by the fake execution layer are <= 1 at all times, = 1 after a drain iff terminal, of the right kind and with the finalised candidate's txid/output/amount; non-trivial = some id received >= 2 competing actions, a duplicate id in a batch, or an earlier candidate finalised; evaluations count blocks",
 	})
